@@ -44,11 +44,27 @@ def _has_star(t):
     return False
 
 
+def _descends(table, sub, sup, depth=0):
+    """class id `sub` has class id `sup` among its (transitive) declared superclasses"""
+    if sub == sup:
+        return True
+    ent = table.get(str(sub)) or table.get(sub)
+    if not ent or depth > 20:
+        return False
+    for st in ent[1]:
+        if st and st[0] in ("A", "C") and isinstance(st[1], int) and _descends(table, st[1], sup, depth + 1):
+            return True
+    return False
+
+
 @C.matcher("c09_star_query")
 def _m_star(detail, kf):
-    """find_irrelevant_type on a type with a star projection returns another instantiation of the same class"""
+    """find_irrelevant_type on a type with a star projection returns an instantiation of the same class or of a
+    generic subclass of it"""
     c = detail.get("case")
-    return bool(c) and c[0] == "irr" and _has_star(c[1]) and c[2] is not None and c[2][0] == "A" and c[1][0] == "A" and c[2][1] == c[1][1]
+    if not (bool(c) and c[0] == "irr" and _has_star(c[1]) and c[2] is not None and c[2][0] == "A" and c[1][0] == "A"):
+        return False
+    return _descends(detail.get("table") or {}, c[2][1], c[1][1])
 
 
 def pool_objects(L, b, tab):
